@@ -270,26 +270,61 @@ def degenerate(ctx, fn):
     state = {ast.unparse(a.targets[0]): ast.unparse(a.value) for a in deg.body if isinstance(a, ast.Assign)}
     ctx.need(state.get("self.sweep") == "0", "R05.4", "degenerate state is not sweep = 0: %s" % state)
     # evaluators: branches guarded by `self.sweep == 0`
+    def is_sweep_zero(t):
+        if isinstance(t, ast.Compare) and len(t.ops) == 1 and isinstance(t.ops[0], ast.Eq):
+            sides = [t.left, t.comparators[0]]
+            return any(attr_chain(x) == ["self", "sweep"] for x in sides) and any(isinstance(x, ast.Constant) and x.value == 0 for x in sides)
+        if isinstance(t, ast.UnaryOp) and isinstance(t.op, ast.Not):
+            return attr_chain(t.operand) == ["self", "sweep"]
+        return False
+
     def deg_branch(f):
         for s in stmts_in(f.body):
-            if isinstance(s, ast.If) and ast.unparse(s.test).replace(" ", "") in ("self.sweep==0", "self.sweep==0.0"):
+            if isinstance(s, ast.If) and is_sweep_zero(s.test):
                 return s
         return None
 
+    def first_return(block):
+        """value returned by the straight-line degenerate branch, with its single-definition locals substituted"""
+        alg = Alg()
+        for st in block:
+            if isinstance(st, ast.Assign):
+                try:
+                    alg.assign(st)
+                except Uninterpreted:
+                    pass
+            if isinstance(st, ast.Return):
+                return alg, st.value
+        return alg, None
+
     ln = ctx.fn("Arc.length", "R05.4")
     b = deg_branch(ln)
-    ok = b is not None and isinstance(b.body[0], ast.Return) and ast.unparse(b.body[0].value).replace(" ", "") in (
-        "Point.distance(self.start,self.end)", "Point.distance(self.end,self.start)", "abs(self.end-self.start)", "abs(self.start-self.end)", "self.start.distance_to(self.end)")
+    ok = False
+    if b is not None:
+        _, v = first_return(b.body)
+        if isinstance(v, ast.Call):
+            ends = {"self.start", "self.end"}
+            if attr_chain(v.func) == ["Point", "distance"] and len(v.args) == 2 and {".".join(attr_chain(a) or []) for a in v.args} == ends:
+                ok = True
+            if isinstance(v.func, ast.Attribute) and v.func.attr in ("distance", "distance_to") and len(v.args) == 1 and {".".join(attr_chain(v.func.value) or []), ".".join(attr_chain(v.args[0]) or [])} == ends:
+                ok = True
+            if call_name(v) == "abs" and len(v.args) == 1 and isinstance(v.args[0], ast.BinOp) and isinstance(v.args[0].op, ast.Sub) \
+                    and {".".join(attr_chain(v.args[0].left) or []), ".".join(attr_chain(v.args[0].right) or [])} == ends:
+                ok = True
     ctx.ob("R05.4", "Arc.length[degenerate]", ok, ast.unparse(b)[:100] if b is not None else "no sweep == 0 branch", ln.lineno,
            "a zero-radius arc is the straight line between its endpoints: its length is |end - start| (0 only for coincident endpoints)")
     bb = ctx.fn("Arc.bbox", "R05.4")
     b = deg_branch(bb)
     ok = False
-    if b is not None and isinstance(b.body[-1], ast.Return) and isinstance(b.body[-1].value, ast.Tuple) and len(b.body[-1].value.elts) == 4:
-        e = [ast.unparse(x).replace(" ", "") for x in b.body[-1].value.elts]
-        want = [{"min(self.start.x,self.end.x)", "min(self.end.x,self.start.x)"}, {"min(self.start.y,self.end.y)", "min(self.end.y,self.start.y)"},
-                {"max(self.start.x,self.end.x)", "max(self.end.x,self.start.x)"}, {"max(self.start.y,self.end.y)", "max(self.end.y,self.start.y)"}]
-        ok = all(x in w for x, w in zip(e, want))
+    if b is not None:
+        alg, v = first_return(b.body)
+        if isinstance(v, ast.Tuple) and len(v.elts) == 4:
+            try:
+                got = [alg.ev(x) for x in v.elts]
+                want = [Alg().ev(ast.parse(t, mode="eval").body) for t in ("min(self.start.x, self.end.x)", "min(self.start.y, self.end.y)", "max(self.start.x, self.end.x)", "max(self.start.y, self.end.y)")]
+                ok = all(g == w for g, w in zip(got, want))
+            except Uninterpreted:
+                ok = False
     ctx.ob("R05.4", "Arc.bbox[degenerate]", ok, ast.unparse(b)[:140] if b is not None else "no sweep == 0 branch", bb.lineno,
            "the box of the straight segment is min/max of its endpoints (an unordered box when the end is left/above the start otherwise)")
     for qual in ("Arc.npoint", "Arc._points_numpy"):
